@@ -274,7 +274,7 @@ def run_case(fam, impl, kind, entry, pos, lab, datum, populated, rng, rec):
     desc = dict(family=fam.name, impl=impl, kind=kind, entry=entry,
                 position=pos, datum_class=lab, datum=brief(datum, 80),
                 populated=populated, none_only=none_only)
-    rec.journal(repr(desc))
+    rec.journal(harness.safe_repr(desc))
     is_index = isinstance(datum, Indexable) or (
         is_duck_number(datum) and pos == 'value' and fam.vc == 'F')
     out, c2 = do_write(fam, impl, kind, c, entry, k, v)
